@@ -169,7 +169,7 @@ class Facts:
                         e = it["expr"]
                         if e.get("k") == "Unary" and e.get("op") == "-" and isinstance(e.get("expr"), dict):
                             continue
-                        if e.get("k") == "Lit" and e.get("lit") in ("Str", "Int", "Char", "Bool", "Float", "ByteStr", "Byte"):
+                        if self._const_expr(e):
                             found.setdefault(it["name"], []).append(e)
                     elif k in ("Mod", "Impl", "Trait") and it.get("items") is not None:
                         items(it["items"])
@@ -180,7 +180,7 @@ class Facts:
                     items(self._raw[rel].get("items"))
             self._consts = {}
             for name, lits in found.items():
-                if name in named or len({(l.get("lit"), l.get("value")) for l in lits}) != 1:
+                if name in named or len({self._lit_text(l) for l in lits}) != 1:
                     continue
                 self._consts[name] = lits[0]
         return self._consts
@@ -192,14 +192,23 @@ class Facts:
         elif isinstance(node, dict):
             if node.get("k") == "Path" and isinstance(node.get("segs"), list) and node["segs"] and node["segs"][-1] in table and \
                     (len(node["segs"]) == 1 or node["segs"][-2] in ("Self", "self", "super", "crate") or node["segs"][-2][:1].islower()):
-                lit = table[node["segs"][-1]]
+                import copy
+                lit = copy.deepcopy(table[node["segs"][-1]])
                 sp = node.get("sp")
                 name = node["segs"][-1]
                 node.clear()
-                node.update({"k": "Lit", "lit": lit.get("lit"), "value": lit.get("value"), "sp": sp, "const": name})
+                node.update(lit)
+                node["const"] = name
+                for x in self._walk_all(node):
+                    x["sp"] = sp
                 return
             if node.get("k") == "Const":
                 return  # the definition itself keeps its shape
+            # `{NAME}` captured by a format string is the constant's text
+            if node.get("k") == "Lit" and node.get("lit") == "Str" and isinstance(node.get("value"), str) and "{" in node["value"]:
+                node["value"] = self._subst_captures(node["value"], table)
+            if node.get("k") == "Macro" and isinstance(node.get("tokens"), str) and "{" in node["tokens"]:
+                node["tokens"] = self._subst_captures(node["tokens"], table)
             for v in node.values():
                 if isinstance(v, (dict, list)):
                     self._inline_consts(v, table)
@@ -233,12 +242,47 @@ class Facts:
         table = self.consts()
         if table and any(n in out for n in table):
             import re as _re
+            out = self._subst_captures(out, table)
             out = _re.sub(r"(?<![A-Za-z0-9_\"])(?:(?:Self|self|super|crate|[a-z_][a-z0-9_]*)::)*(" + "|".join(map(_re.escape, sorted(table, key=len, reverse=True))) + r")(?![A-Za-z0-9_])",
                           lambda m_: self._lit_text(table[m_.group(1)]), out)
         return out
 
     @staticmethod
+    def _subst_captures(text, table):
+        import re as _re
+
+        def rep(m_):
+            lit = table.get(m_.group(1))
+            if lit is None or lit.get("k") != "Lit" or lit.get("lit") not in ("Str", "Char", "Int"):
+                return m_.group(0)
+            return str(lit.get("value")).replace("{", "{{").replace("}", "}}")
+        return _re.sub(r"(?<!\{)\{([A-Z][A-Z0-9_]*)\}(?!\})", rep, text)
+
+    @staticmethod
+    def _const_expr(e):
+        if not isinstance(e, dict):
+            return False
+        if e.get("k") == "Lit":
+            return e.get("lit") in ("Str", "Int", "Char", "Bool", "Float", "ByteStr", "Byte")
+        if e.get("k") == "Tuple":
+            return bool(e.get("elems")) and all(Facts._const_expr(x) for x in e["elems"])
+        return False
+
+    @staticmethod
+    def _walk_all(node):
+        yield node
+        for v in node.values():
+            if isinstance(v, dict) and "k" in v:
+                yield from Facts._walk_all(v)
+            elif isinstance(v, list):
+                for x in v:
+                    if isinstance(x, dict) and "k" in x:
+                        yield from Facts._walk_all(x)
+
+    @staticmethod
     def _lit_text(lit):
+        if lit.get("k") == "Tuple":
+            return "(" + ", ".join(Facts._lit_text(x) for x in lit["elems"]) + ")"
         v = lit.get("value")
         if lit.get("lit") == "Str":
             return '"' + str(v).replace("\\", "\\\\").replace('"', '\\"').replace("\n", "\\n").replace("\t", "\\t") + '"'
